@@ -21,6 +21,9 @@ def random_plan(rng, n_nodes, seq_ratio=(1, 4), wmax=8, kinds=None, allow_feedba
     plan = {'inputs': [(f'in{i}', rng.randint(1, wmax)) for i in range(n_in)], 'nodes': [], 'domains': [{'parent': None, 'gated': False}]}
     for di in range(n_domains):
         plan['domains'].append({'parent': rng.randint(0, di), 'gated': rng.chance(2, 3), 'enable': None})
+        # distinct ClockDriver objects may carry the same name (a reusable sub-block that creates its own 'gclk'; a gated
+        # driver called 'clk' like the default one): domains are identified by the driver object, never by its name
+        plan['domains'][-1]['drv_name'] = rng.fork(('drvname', di)).choice([f'gclk{di + 1}', f'gclk{di + 1}', 'gclk', 'clk'])
     nodes = plan['nodes']
     comb = [k for k in COMB if (kinds is None or k in kinds)]
     seq = [k for k in SEQ if (kinds is None or k in kinds)]
@@ -177,7 +180,7 @@ def build(plan, inst_order=None, wire_order=None, sysname=None, into=None, leaf_
     for di, dm in enumerate(plan.get('domains', [])[1:], 1):
         c = py4hw.Logic(conts[dm['parent']], f'dom{di}')
         if dm['gated']:
-            c.clockDriver = py4hw.ClockDriver(f'gclk{di}', base=top.clockDriver, enable=W[tuple(dm['enable'])])
+            c.clockDriver = py4hw.ClockDriver(dm.get('drv_name', f'gclk{di}'), base=top.clockDriver, enable=W[tuple(dm['enable'])])
         conts.append(c)
     for pos_, j in enumerate(order):
         if pause_after is not None and pos_ == pause_after and on_pause is not None:
@@ -256,6 +259,24 @@ def random_ops(rng, inputs, n_ops, extreme=False):
             ops.append(('clk', rng.choice([1, 1, 1, 2, 3])))
     ops.append(('clk', 1))
     return ops
+
+
+def register_inputs(plan):
+    """every reference to a primary input becomes a reference to a plain register fed by that input: after each clk() the
+    combinational cloud sees NEW source values in the single propagation pass that follows the edge (a poked input is followed
+    by two passes, which hides a single misplaced block)"""
+    n = len(plan['nodes'])
+    idx = {}
+    for nd in plan['nodes']:
+        for k, ref in enumerate(nd['ins']):
+            if ref[0] == 'in':
+                if ref[1] not in idx:
+                    idx[ref[1]] = n + len(idx)
+                nd['ins'][k] = ('node', idx[ref[1]], 0)
+    for i, j in sorted(idx.items(), key=lambda kv: kv[1]):
+        plan['nodes'].append({'kind': 'Reg', 'name': f'n{j}', 'ins': [('in', i)], 'outw': [plan['inputs'][i][1]], 'dom': 0,
+                              'params': dict(has_e=0, has_r=0, reset_value=None)})
+    return plan
 
 
 def plan_summary(plan):
